@@ -301,6 +301,12 @@ func (e *env) upgradeOK(rng *rand.Rand, gated string) {
 	if slow {
 		gated, upTO = "client", -time.Second // (the client's time-out only; one second is the shortest the configuration accepts)
 	}
+	// "client-storm": several goroutines send without pause while the client swaps, so that some of them wait for
+	// the transport lock when the swap takes it and run the moment it is given back
+	storm := gated == "client-storm"
+	if storm {
+		gated = "client"
+	}
 	if gated != "none" {
 		want := map[string]string{"server": "eio.s.upgrade.beforeSwap", "client": "eio.c.upgrade.beforeSwap"}[gated]
 		ctl.HoldIf(func(pt string, k any) bool { return pt == want })
@@ -320,6 +326,23 @@ func (e *env) upgradeOK(rng *rand.Rand, gated string) {
 		if wt := ctl.WaitFor(func(*gates.Waiter) bool { return true }, 4*time.Second); wt != nil {
 			if slow {
 				time.Sleep(2 * time.Second)
+			}
+			if storm {
+				for g := 0; g < 6; g++ {
+					wg.Add(1)
+					go func() {
+						defer wg.Done()
+						for {
+							select {
+							case <-stop:
+								return
+							default:
+							}
+							s.cs.Send(msg("u", int(atomic.AddInt64(up, 1)), false))
+						}
+					}()
+				}
+				time.Sleep(15 * time.Millisecond)
 			}
 			// a burst in both directions exactly while one side stands before its swap
 			for i := 0; i < 5; i++ {
@@ -733,7 +756,7 @@ func TestC14(t *testing.T) {
 func TestC07(t *testing.T) {
 	out := vres.OutDir()
 	res := vres.New()
-	res.Rule = "one case = one real Engine.IO session with numbered text/binary traffic in both directions: polling->websocket upgrades (ungated, or with a burst placed while the server / the client stands before its swap), failing upgrades (refused, stalled past the upgrade time-out), settled transports; distinct by mode and traffic seed"
+	res.Rule = "one case = one real Engine.IO session with numbered text/binary traffic in both directions: polling->websocket upgrades (ungated, or with a burst placed while the server / the client stands before its swap, or with six goroutines sending without pause across the client's swap), failing upgrades (refused, stalled past the upgrade time-out), settled transports; distinct by mode and traffic seed"
 	vtrace.Install()
 	defer vtrace.Uninstall()
 	vtrace.SetFilter(keep)
@@ -750,6 +773,9 @@ func TestC07(t *testing.T) {
 			k = i % 3 // (the slow swap costs two seconds each: a few are enough)
 		}
 		e.upgradeOK(rng, []string{"none", "server", "client", "client-slow"}[k])
+	}
+	for i := 0; i < vres.Pick(4, 40); i++ {
+		e.upgradeOK(rng, "client-storm")
 	}
 	e.upgradeFail(rng, dialRefuse, "refused")
 	e.upgradeFail(rng, dialStall, "stalled")
